@@ -18,6 +18,8 @@
 (*   Pop(p, i)       p.pop_species(i)             (0-based, valid index)   *)
 (*   Clear(p)        p.clear_species()                                     *)
 (*   Copy(p)         p.copy_species()             (observer)               *)
+(*   Observe(p)      read what a written phase says: p.elements, the       *)
+(*                   elements / species of p.to_cti(), p.to_omkm_yaml()    *)
 (*   Assign(p, L)    p.species = L                (property setter)        *)
 (*                                                                         *)
 (* IMPLEMENTATION-shaped state: a phase object does not hold a value, it   *)
@@ -29,7 +31,17 @@
 (* to that list.  Variant "fresh" gives every construction its own list.   *)
 (* members(p) == store[cell[p]] is what species_names observes.            *)
 (*                                                                         *)
+(* DERIVED OBSERVABLES: everything a written phase says about its species  *)
+(* is derived from the list: the species names and                         *)
+(* Elements(p) = UNION of the elements of its species (ElemOf).  The       *)
+(* implementation may remember a derived value (`cache`): variant          *)
+(* CacheVariant = "none" recomputes on every read (the source),            *)
+(* "stale_on_removal" remembers the elements at the first read and forgets *)
+(* them on assignment/append/extend/clear but NOT on pop/remove.           *)
+(*                                                                         *)
 (* PROPERTIES                                                              *)
+(*   PhaseElementsAreUnionOfSpecies  what p reports as its elements, at    *)
+(*             any time, = UNION {ElemOf[s] : s in want[p]}                *)
 (*   ListsExactlyItsSpecies  members(p) = want[p] for every live p         *)
 (*   Frame     an action on p changes members(q) of no other live q        *)
 (*   OwnerAfterInsert  after s was put into p, owner[s] = p                *)
@@ -50,10 +62,13 @@ CONSTANTS PhaseObj,    \* identities of phase objects
           GivenLists,  \* lists a caller may hand to New / Extend / Assign
           MaxLen,      \* bound on the length of a list
           MaxOps,      \* bound on the number of calls in a behaviour
-          Variant      \* "fresh" | "shared_default"
+          Variant,     \* "fresh" | "shared_default"
+          ElemOf,      \* [Species -> SUBSET element names]
+          CacheVariant \* "none" | "stale_on_removal"
 
-VARIABLES alive, want, owner, cell, store, h
-vars == <<alive, want, owner, cell, store, h>>
+VARIABLES alive, want, owner, cell, store, cache, h
+vars == <<alive, want, owner, cell, store, cache, h>>
+NoCache == {"-"}
 
 Cells == {<<"own", p>> : p \in PhaseObj} \cup {<<"dflt">>}
 Own(p) == <<"own", p>>
@@ -61,6 +76,11 @@ members(p) == store[cell[p]]
 membersNext(p) == store'[cell'[p]]
 
 SeqToSet(s) == {s[i] : i \in 1..Len(s)}
+ElemsOfList(L) == UNION {ElemOf[L[i]] : i \in 1..Len(L)}
+\* what the object reports when asked now / after the step
+Reported(p) == IF cache[p] # NoCache THEN cache[p] ELSE ElemsOfList(members(p))
+ReportedNext(p) == IF cache'[p] # NoCache THEN cache'[p] ELSE ElemsOfList(membersNext(p))
+Forget(p) == cache' = [cache EXCEPT ![p] = NoCache]
 RemoveAt(s, i) == SubSeq(s, 1, i - 1) \o SubSeq(s, i + 1, Len(s))          \* 1-based
 FirstIndex(s, x) == CHOOSE i \in 1..Len(s) : s[i] = x /\ \A j \in 1..(i - 1) : s[j] # x
 
@@ -69,6 +89,7 @@ Rec(a, p, s, L, i, ret) ==
    [act |-> a, p |-> p, kind |-> KindOf[p], s |-> s, L |-> L, i |-> i, ret |-> ret,
     alive |-> alive',
     mem |-> [q \in PhaseObj |-> IF q \in alive' THEN want'[q] ELSE <<>>],
+    el |-> [q \in PhaseObj |-> IF q \in alive' THEN ElemsOfList(want'[q]) ELSE {}],
     own |-> owner']
 CanStep == Len(h) < MaxOps
 
@@ -77,6 +98,7 @@ Init == /\ alive = {}
         /\ owner = [s \in Species |-> "none"]
         /\ cell = [p \in PhaseObj |-> Own(p)]
         /\ store = [c \in Cells |-> <<>>]
+        /\ cache = [p \in PhaseObj |-> NoCache]
         /\ h = <<>>
 
 SetOwner(S, p) == owner' = [s \in Species |-> IF s \in S THEN p ELSE owner[s]]
@@ -96,6 +118,7 @@ New(p, arg) ==
            /\ SetOwner(SeqToSet(arg), p)
            /\ cell' = [cell EXCEPT ![p] = Own(p)]
            /\ store' = [store EXCEPT ![Own(p)] = arg]
+   /\ Forget(p)
    /\ h' = Append(h, Rec("new", p, "-", arg, 0, <<>>))
 
 Append_(p, s) ==
@@ -103,7 +126,7 @@ Append_(p, s) ==
    /\ want' = [want EXCEPT ![p] = Append(@, s)]
    /\ store' = [store EXCEPT ![cell[p]] = Append(@, s)]
    /\ SetOwner({s}, p)
-   /\ UNCHANGED <<alive, cell>>
+   /\ UNCHANGED <<alive, cell>> /\ Forget(p)
    /\ h' = Append(h, Rec("append", p, s, <<>>, 0, <<>>))
 
 Extend(p, L) ==
@@ -112,7 +135,7 @@ Extend(p, L) ==
    /\ want' = [want EXCEPT ![p] = @ \o L]
    /\ store' = [store EXCEPT ![cell[p]] = @ \o L]
    /\ SetOwner(SeqToSet(L), p)
-   /\ UNCHANGED <<alive, cell>>
+   /\ UNCHANGED <<alive, cell>> /\ Forget(p)
    /\ h' = Append(h, Rec("extend", p, "-", L, 0, <<>>))
 
 Remove(p, s) ==
@@ -123,6 +146,7 @@ Remove(p, s) ==
       THEN store' = [store EXCEPT ![cell[p]] = RemoveAt(@, FirstIndex(@, s))]
       ELSE UNCHANGED store
    /\ UNCHANGED <<alive, cell, owner>>
+   /\ (IF CacheVariant = "stale_on_removal" THEN UNCHANGED cache ELSE Forget(p))
    /\ h' = Append(h, Rec("remove", p, s, <<>>, 0, <<>>))
 
 Pop(p, i) ==      \* i is the 0-based python index
@@ -132,19 +156,26 @@ Pop(p, i) ==      \* i is the 0-based python index
       THEN store' = [store EXCEPT ![cell[p]] = RemoveAt(@, i + 1)]
       ELSE UNCHANGED store
    /\ UNCHANGED <<alive, cell, owner>>
+   /\ (IF CacheVariant = "stale_on_removal" THEN UNCHANGED cache ELSE Forget(p))
    /\ h' = Append(h, Rec("pop", p, "-", <<>>, i, <<>>))
 
 Clear(p) ==
    /\ CanStep /\ p \in alive /\ want[p] # <<>>
    /\ want' = [want EXCEPT ![p] = <<>>]
    /\ store' = [store EXCEPT ![cell[p]] = <<>>]
-   /\ UNCHANGED <<alive, cell, owner>>
+   /\ UNCHANGED <<alive, cell, owner>> /\ Forget(p)
    /\ h' = Append(h, Rec("clear", p, "-", <<>>, 0, <<>>))
 
 Copy(p) ==        \* observer: returns a new list with the same species
    /\ CanStep /\ p \in alive /\ (h = <<>> \/ h[Len(h)].act # "copy")
-   /\ UNCHANGED <<alive, want, owner, cell, store>>
+   /\ UNCHANGED <<alive, want, owner, cell, store, cache>>
    /\ h' = Append(h, Rec("copy", p, "-", <<>>, 0, want[p]))
+
+Observe(p) ==     \* observer: the elements / species a written phase states (a "write")
+   /\ CanStep /\ p \in alive /\ (h = <<>> \/ h[Len(h)].act # "observe" \/ h[Len(h)].p # p)
+   /\ UNCHANGED <<alive, want, owner, cell, store>>
+   /\ cache' = IF CacheVariant = "stale_on_removal" THEN [cache EXCEPT ![p] = Reported(p)] ELSE cache
+   /\ h' = Append(h, Rec("observe", p, "-", <<>>, 0, want[p]))
 
 Assign(p, L) ==   \* p.species = L rebinds p to the caller's (fresh) list
    /\ CanStep /\ p \in alive /\ L # want[p]
@@ -152,14 +183,14 @@ Assign(p, L) ==   \* p.species = L rebinds p to the caller's (fresh) list
    /\ cell' = [cell EXCEPT ![p] = Own(p)]
    /\ store' = [store EXCEPT ![Own(p)] = L]
    /\ SetOwner(SeqToSet(L), p)
-   /\ UNCHANGED alive
+   /\ UNCHANGED alive /\ Forget(p)
    /\ h' = Append(h, Rec("assign", p, "-", L, 0, <<>>))
 
 Next == \/ \E p \in PhaseObj : \E arg \in GivenLists \cup {Default} : New(p, arg)
         \/ \E p \in PhaseObj, s \in Species : Append_(p, s) \/ Remove(p, s)
         \/ \E p \in PhaseObj, L \in GivenLists : (L # <<>> /\ Extend(p, L)) \/ Assign(p, L)
         \/ \E p \in PhaseObj, i \in 0..(MaxLen - 1) : Pop(p, i)
-        \/ \E p \in PhaseObj : Clear(p) \/ Copy(p)
+        \/ \E p \in PhaseObj : Clear(p) \/ Copy(p) \/ Observe(p)
 Spec == Init /\ [][Next]_vars
 
 \* ---- properties ------------------------------------------------------------
@@ -168,6 +199,7 @@ TypeOK == /\ alive \subseteq PhaseObj
           /\ \A s \in Species : owner[s] \in PhaseObj \cup {"none"}
           /\ \A p \in PhaseObj : cell[p] \in Cells
 ListsExactlyItsSpecies == \A p \in alive : members(p) = want[p]
+PhaseElementsAreUnionOfSpecies == \A p \in alive : Reported(p) = ElemsOfList(want[p])
 OwnerAlive == \A s \in Species : owner[s] # "none" => owner[s] \in alive
 Last == h'[Len(h')]
 Acted == h' # h
